@@ -155,7 +155,14 @@ def session(kind, shape, step, scb, bystander=False, cb_style="method"):
             if not c.lost and not c.closing:
                 c.feed(packet(kind, 230))
         await asyncio.sleep(40.0)
-    sim, stats = simgw.run_session(kind, scenario, status_cb=scb, recv_cb="slow" if shape == "slow_receive_cb" else "ok", bystander=bystander, cb_style=cb_style)
+    # every fourth session: the client also dumps what it receives - into a file that cannot be flushed (a full disk). Whatever
+    # becomes of the dump, close() is still final and the link is shut
+    import os as _os
+    ck = {"dump_to_file": "/dev/full"} if (step % 4 == 2 and _os.path.exists("/dev/full")) else None
+    sim, stats = simgw.run_session(kind, scenario, status_cb=scb, recv_cb="slow" if shape == "slow_receive_cb" else "ok", bystander=bystander, cb_style=cb_style,
+                                   client_kwargs=ck)
+    if ck and sim is not None:
+        sim.dumping_to_a_full_disk = True
     return sim, stats, info
 
 
